@@ -9,6 +9,7 @@ import Relic.Driver.C04
 import Relic.Driver.C09
 import Relic.Driver.C18
 import Relic.Driver.C16
+import Relic.Driver.C10
 open Relic
 
 def dispatch (line : String) : String :=
@@ -23,6 +24,7 @@ def dispatch (line : String) : String :=
   | "C09" :: rest => Relic.Driver.C09.handle rest
   | "C18" :: rest => Relic.Driver.C18.handle rest
   | "C16" :: rest => Relic.Driver.C16.handle rest
+  | "C10" :: rest => Relic.Driver.C10.handle rest
   | _ => "bad-op"
 
 partial def loop (h : IO.FS.Stream) (out : IO.FS.Stream) : IO Unit := do
